@@ -293,10 +293,21 @@ class GeomEval:
                 continue
             if isinstance(st, ast.Assign) and len(st.targets) == 1:
                 t = st.targets[0]
-                if self.gather_vertices(st.value):
+                # locals that merely name a fragment (`idx = self.elements.flatten(order="F")`) are read through
+                from . import roles
+
+                if getattr(self, "_defs", None) is None:
+                    self._defs = roles.Defs(self.fn)
+                value = roles.inline(st.value, self._defs, keep=tuple(self.env))  # quantities already evaluated stay names
+                if self.gather_vertices(value):
                     val = B(vertex_atoms(), True)
                 else:
-                    val = self.ev(st.value)
+                    try:
+                        val = self.ev(value)
+                    except AnalysisError:
+                        if isinstance(t, ast.Name):
+                            continue  # a fragment that is no geometric quantity on its own; its readers see the expression
+                        raise
                 if isinstance(t, ast.Name):
                     self.env[t.id] = val
                 elif isinstance(t, ast.Attribute) and isinstance(t.value, ast.Name) and t.value.id == "self":
